@@ -26,6 +26,11 @@ def rd(ctx, N, M=16, B=4, K=1, qN=None, tiers=("quick", "thorough"), labels=None
     r["params"]["WRAPEOF"] = 0
     r["params"]["LITCAP"] = 0
     r["params"]["ONLY"] = 2 if labels and "C02:" in labels else 0
+    r["params"]["HL"] = 0
+    r["params"]["BLO"] = 0
+    r["params"]["CONC"] = 0
+    r["params"]["BHI"] = 0
+    r["params"]["HD"] = 0
     if tN is not None:
         r["thorough"] = {"N": tN}
     elif harness == "VerifRdOracle":
@@ -269,6 +274,35 @@ CHECKS["C01"]["runs"] += [wr("VerifKEncBytes", {}, {"IDXLO": lo, "IDXHI": hi, "L
 CHECKS["C18"]["runs"] += [dict(rd(5, 3, M=300, labels=["C18:"], covers=["ran"], harness="VerifAsmDiff"), tags="verif", native_configs=[["verif", None]], maxdec=4000, maxconc=1500)]
 
 # round-4 additions
-CHECKS["C12"]["runs"] += [wr("VerifWrReset", {"setting": st, "oldfails": 0}, {"K1": 3, "K2": 2, "W": 16, "BIGEXACT": 0, "REPLAY": 1}, ["C12:"], ["compared"]) for st in (5, 6, 3)]
+CHECKS["C12"]["runs"] += [wr("VerifWrReset", {"setting": st, "oldfails": 0}, {"K1": k1, "K2": 3, "W": 16, "BIGEXACT": 0, "REPLAY": 1}, ["C12:"], ["compared"]) for (st, k1) in [(5, 4), (6, 3), (3, 3)]]
 CHECKS["C11"]["runs"] += [rdp("VerifRdGate", c, n, {"bufio": b}, ["C11:"], []) for (c, n) in [(4, 6), (5, 6)] for b in (0, 2)]
 CHECKS["C05"]["runs"] += [rdp("VerifRdPos", 90, n, {"src": k, "ctor": ct}, ["C05:"], [], extra={"K": kk}) for (n, kk) in [(1, 0), (1, 1), (2, 2), (2, 0)] for (k, ct) in [(0, 1), (2, 0)]]
+CHECKS["C01"]["runs"] += [wr("VerifWrLookahead", {"setting": st}, {"W": 16, "PRE": 900, "T": t}, ["C01:", "C10:"], ["closed"]) for st in (5, 6) for t in (1, 2)]
+CHECKS["C01"]["assumptions"].append("VerifWrLookahead: the state idx == end with tokens pending (reached only by the accelerated match finders) is constructed from a real state right after a non-flushing step by consuming j <= 8 look-ahead bytes as literals; which such states the assembly really reaches is not decided")
+# symbolic code-length symbol stream near the literal/distance boundary (context 91), one-byte window.
+# K=3 puts a whole symbolic length symbol into the window: table construction over a symbolic length costs
+# 30-50 s per run and sometimes 'unknown', so those runs case-split the window byte (CONC=1); two-byte
+# windows were tried and dropped (solver unknowns).
+HDR91 = [(1, k, hl, hd) for (hl, hd) in [(0, 0), (1, 1), (29, 0), (0, 29), (10, 5)] for k in (1, 2, 3, 4, 5, 6)]
+CHECKS["C03"]["runs"] += [rd(91, n, K=k, labels=["C03:"], extra={"HL": hl, "HD": hd, "CONC": 1 if k == 3 else 0}) for (n, k, hl, hd) in HDR91]
+CHECKS["C02"]["runs"] += [rd(91, n, K=k, labels=["C02:", "REF:"], extra={"HL": hl, "HD": hd, "CONC": 1 if k == 3 else 0}) for (n, k, hl, hd) in HDR91 if k in (1, 3, 5)]
+
+# context 92: bits [BLO, BHI) of a complete template header are symbolic.
+def hdr92(K, lo, hi, conc, labels, tiers=("quick", "thorough")):
+    n = (hi - 1) // 8 - lo // 8 + 1
+    r = rd(92, n, K=K, labels=labels, tiers=tiers, extra={"BLO": lo, "BHI": hi, "CONC": conc})
+    r["maxdec"] = 4000
+    return r
+
+HDR92_LEN = {2: 145, 14: 153, 8: 345, 12: 200}
+for _lab, _pid in ((["C03:"], "C03"), (["C02:", "REF:"], "C02")):
+    # HLIT, HDIST, HCLEN fields: symbolic
+    CHECKS[_pid]["runs"] += [hdr92(K, lo, hi, 0, _lab) for K in (2, 14) for (lo, hi) in [(3, 8), (8, 13), (13, 17)]]
+    # code-length code lengths and code-length symbols: sliding 8-bit windows, case-split
+    CHECKS[_pid]["runs"] += [hdr92(K, lo, lo + 8, 1, _lab) for K in (2, 14) for lo in range(17, HDR92_LEN[K], 8)]
+    CHECKS[_pid]["runs"] += [hdr92(K, lo, lo + 8, 1, _lab, tiers=["thorough"]) for K in (2, 14) for lo in range(21, HDR92_LEN[K], 8)]
+    CHECKS[_pid]["runs"] += [hdr92(K, lo, lo + 8, 1, _lab, tiers=["thorough"]) for K in (8, 12) for lo in range(17, HDR92_LEN[K], 4)]
+# assembly match-copy strategies: byte-aligned two-byte window after non-repeating output (context 6)
+CHECKS["C18"]["runs"] += [dict(rd(6, 2, M=36, labels=["C18:"], covers=["ran"], harness="VerifAsmDiff", tiers=["quick"], extra={"LITCAP": 1}), tags="verif", native_configs=[["verif", None]], maxdec=4000)]
+CHECKS["C18"]["runs"] += [dict(rd(6, 2, M=260, labels=["C18:"], covers=["ran"], harness="VerifAsmDiff", tiers=["thorough"]), tags="verif", native_configs=[["verif", None]], maxdec=4000, maxconc=600)]
+CHECKS["C18"]["runs"] += [dict(rd(1, 3, M=16, labels=["C18:"], covers=["ran"], harness="VerifAsmDiff", tiers=["thorough"]), tags="verif", native_configs=[["verif", None]], maxdec=4000, maxconc=600)]
